@@ -42,8 +42,13 @@ pub trait SimHooks {
     fn synced(&self, path: &Path);
     /// Before a file is truncated in place (index re-creation).
     fn on_truncate(&self, path: &Path);
-    /// Simulated latency of the next blocking job (`None`/zero = just yield once).
-    fn job_latency(&self) -> Option<Duration>;
+    /// A blocking job is being submitted by the current task. Returns a token identifying the
+    /// job and its simulated latency (`None`/zero = just yield once).
+    fn job_begin(&self) -> (u64, Option<Duration>);
+    /// The closure of job `token` starts running.
+    fn job_enter(&self, token: u64);
+    /// The closure of job `token` has finished.
+    fn job_exit(&self, token: u64);
     /// Whether small I/O operations run in place (multi-thread runtime flavour) or every
     /// operation is a suspension point (current-thread flavour).
     fn inplace_small(&self) -> bool;
@@ -116,13 +121,16 @@ where
     F: FnOnce() -> R + Send + 'static,
     R: Send + 'static,
 {
-    let latency = with(|h| h.job_latency()).flatten();
+    let (token, latency) = with(|h| h.job_begin()).unwrap_or((0, None));
     let handle = tokio::spawn(async move {
         match latency {
             Some(d) if !d.is_zero() => tokio::time::sleep(d).await,
             _ => tokio::task::yield_now().await,
         }
-        f()
+        with(|h| h.job_enter(token));
+        let result = f();
+        with(|h| h.job_exit(token));
+        result
     });
     handle.await.expect("simulated blocking job failed")
 }
